@@ -242,6 +242,26 @@ fn note_vote_cast(o: &mut Observer, i: usize, round: Round, hash: &Digest, how: 
     }
 }
 
+/// C09, implementation-agnostic: whoever honest nodes treat as the proposer of a round (by
+/// proposing in it, or by voting for a block of it) must be one and the same authority. The
+/// comparison with the sorted-key round robin of the reference implementation is a probe only,
+/// so that a different but consistent rotation does not raise an alarm.
+fn note_round_leader(o: &mut Observer, node: usize, round: Round, leader: PublicKey, how: &str) {
+    match o.ext.voted_author.get(&round) {
+        Some(prev) if *prev != leader => {
+            let (a, b) = (o.idx(prev), o.idx(&leader));
+            o.violate("C09", "two-leaders-one-round", Some(node), format!("in round {} honest nodes acted on two different proposers: authority {:?} and authority {:?} (node {} {})", round, a, b, node, how));
+        }
+        Some(_) => {}
+        None => {
+            o.ext.voted_author.insert(round, leader);
+            if o.members.leader(round) != leader {
+                o.probe("C09.leader-differs-from-sorted-key-round-robin");
+            }
+        }
+    }
+}
+
 fn msg_round(m: &ConsensusMessage) -> Round {
     match m {
         ConsensusMessage::Propose(b) => b.round,
@@ -421,9 +441,7 @@ fn consensus_written(o: &mut Observer, ev: &TapEvent, m: &ConsensusMessage) {
                         }
                         o.ext.link_prop_max_round.insert((i, usize::MAX), prev.max(b.round));
                         // C09: proposals only as the leader of the round.
-                        if o.members.leader(b.round) != me {
-                            o.violate("C09", "proposal-by-non-leader", Some(i), format!("node {} proposed a block for round {} which it does not lead", i, b.round));
-                        }
+                        note_round_leader(o, i, b.round, me, "proposed in it");
                         // C19: certificates inside own proposals.
                         check_emitted_qc(o, i, &b.qc, "in its proposal");
                         note_qc_shown(o, i, &b.qc);
@@ -515,10 +533,10 @@ fn consensus_written(o: &mut Observer, ev: &TapEvent, m: &ConsensusMessage) {
                     );
                 }
                 // C09: only the leader's correctly signed block.
-                if o.members.leader(v.round) != author || !sig_ok {
-                    o.violate("C09", "vote-for-non-leader-block", Some(i), format!("node {} voted in round {} for a block not authored and signed by that round's leader", i, v.round));
+                if !sig_ok {
+                    o.violate("C09", "vote-for-unsigned-block", Some(i), format!("node {} voted in round {} for a block that its author did not sign", i, v.round));
                 }
-                o.ext.voted_author.entry(v.round).or_insert(author);
+                note_round_leader(o, i, v.round, author, "voted for its block");
                 // C08: data availability at the instant the vote leaves.
                 if author != me {
                     for x in &payload {
@@ -786,10 +804,10 @@ pub fn on_block_learned(o: &mut Observer, d: &Digest) {
         if !ok_shape || vround != round {
             o.violate("C03", "unsafe-extension", Some(i), format!("node {} voted for block {} of round {} whose QC is of round {} and whose TC does not justify the gap", i, ident::short(d), vround, qc_round));
         }
-        if o.members.leader(vround) != author || !sig_ok {
-            o.violate("C09", "vote-for-non-leader-block", Some(i), format!("node {} voted in round {} for a block not authored and signed by that round's leader", i, vround));
+        if !sig_ok {
+            o.violate("C09", "vote-for-unsigned-block", Some(i), format!("node {} voted in round {} for a block that its author did not sign", i, vround));
         }
-        o.ext.voted_author.entry(vround).or_insert(author);
+        note_round_leader(o, i, vround, author, "voted for its block");
     }
 }
 
